@@ -29,15 +29,23 @@ Theorem C08_no_leaks_is_atomic : forall p, leaks p = [] -> atomicb p = true.
 Proof. exact leaks_nil_atomic. Qed.
 Print Assumptions C08_no_leaks_is_atomic.
 
-(* Later calls start from the visible state only (locals, oracle and fault are per call), so
-   after a failed atomic call every later call behaves as if the failed one was never made. *)
-Theorem C08_later_results_unchanged :
+(* What the model says about later calls, and no more: a later call is started from the visible
+   state only (locals, oracle and fault are per call), so after a failed atomic call it starts
+   from exactly the configuration it would have started from had the failed call never been
+   made.  The visible state comprises the 13 fields of Model/Atomic.v, among them FCache (the
+   named cache entries an operation registers itself) and FOther (linker_uid ...); the database
+   content and the hash-keyed derived tables of the cache are NOT part of it, and the model has
+   no notion of a call's result.  That "every later result equals that of a linker on which the
+   failed call was never made" is therefore established by the correspondence run only
+   (harness/c08_x.py: predict(), one more inference operation and a cache-sensitive sequence
+   after every injected failure, against a reference linker), not by this corollary. *)
+Theorem C08_later_call_starts_from_same_visible_state :
   forall p, atomicb p = true ->
     forall o k v0, failed (run_op p o k v0) <> None ->
     forall p2 o2 k2,
       run_op p2 o2 k2 (of_list (visible (run_op p o k v0))) = run_op p2 o2 k2 (of_list (vis_of v0)).
 Proof. intros p Ha o k v0 Hf p2 o2 k2. rewrite (atomicb_sound p Ha o k v0 Hf). reflexivity. Qed.
-Print Assumptions C08_later_results_unchanged.
+Print Assumptions C08_later_call_starts_from_same_visible_state.
 
 (* ---- the code as pinned (before the repairs 6d14b1b4, fe1fba29, 82a01923) violated the statement:
    concrete failing runs of the traces the translator extracts from that tree.  The witnesses were
